@@ -404,6 +404,11 @@ func (m pathmap) str(prefix, indent, curindent string) string {
 }
 
 func (m pathmap) add(path []string, v interface{}) {
+	if len(path) == 0 {
+		// A value at the root (an update without prefix and path elements).
+		m[""] = v
+		return
+	}
 	if len(path) == 1 {
 		m[path[0]] = v
 		return
